@@ -120,6 +120,9 @@ func (fr *Frame) expandIterator(fc *FuncContract, key string, ci ssa.CallInstruc
 	if savedScope == 0 {
 		enc.curScope = myScope
 	}
+	if fc.Iterates.NoStop {
+		enc.assume(Not(done), "iterator ignores the callback's result")
+	}
 	bodyPC := enc.define("pc_it", "Bool", And(pc, Lt(k, n), Not(done)))
 	fr.cur, fr.curPC = st.clone(), bodyPC
 	elEnv := fr.iterEnv(fc, args, argTypes, fr.cur, k)
@@ -154,6 +157,9 @@ func (fr *Frame) expandIterator(fc *FuncContract, key string, ci ssa.CallInstruc
 	}
 	if top.fc != nil && top.fc.Iterates != nil {
 		after.Set("$it.next", enc.define("it_next", "Int", Add(k, IntLit(1))))
+	}
+	if fc.Iterates.NoStop {
+		doneAfter = tFalse
 	}
 	for i, inv := range invs {
 		enc.oblige(fmt.Sprintf("iter:%s:inv%d:preserved", lastName(key), i+1), inv.Where(), inv.Text, inv.Tags, afterPC,
